@@ -2,6 +2,7 @@
    parts of the model: the result monad (Rust panics), iterators as lists,
    strings as lists of Unicode code points, numeric literals. *)
 From Coq Require Export List ZArith NArith Bool.
+From Coq Require Import String Ascii.
 Export ListNotations.
 
 (** * Panics *)
@@ -56,6 +57,13 @@ Proof. destruct (ustr_eqb_spec a a); congruence. Qed.
 
 Lemma ustr_eqb_eq a b : ustr_eqb a b = true <-> a = b.
 Proof. destruct (ustr_eqb_spec a b); split; congruence. Qed.
+
+(** an ASCII string literal as a ustring *)
+Fixpoint us (s : string) : ustring :=
+  match s with
+  | EmptyString => []
+  | String c r => N_of_ascii c :: us r
+  end.
 
 (** lexicographic order by code point = Rust's [str::cmp] (UTF-8 byte order
     coincides with code point order) *)
